@@ -155,7 +155,10 @@ Http::One::TeChunkedParser::parseChunkExtensions(Tokenizer &callerTok)
             return; // reached the end of extensions (if any)
 
         parseOneChunkExtension(tok);
-        buf_ = tok.remaining(); // got one extension
+        // Do not commit (buf_) here: a restart must begin where ParseStrictBws()
+        // applies, i.e. right after chunk-size. Otherwise, a read boundary after
+        // a chunk-ext-val makes us accept BWS before CRLF that we reject when
+        // the same header arrives in one read.
         callerTok = tok;
     } while (true);
 }
